@@ -4,10 +4,10 @@ package main
 
 import (
 	"fmt"
-	"sort"
 	"go/ast"
 	"go/token"
 	"go/types"
+	"sort"
 	"strings"
 )
 
@@ -100,7 +100,7 @@ func (s *loopSet) translate(name string) string {
 	leanName := strings.ReplaceAll(name, ".", "_")
 	t := &loopTr{name: name, set: s, p: s.p, info: s.tp.info, fd: fd, vars: map[types.Object]string{}, params: map[types.Object]bool{},
 		safe: map[*ast.IndexExpr]bool{}, pairBuf: map[types.Object]bool{}, synthCond: map[*ast.IfStmt]string{},
-		tagged: map[types.Object]int{}, restBuf: map[types.Object]bool{}, absDeps: map[string]string{}}
+		tagged: map[types.Object]int{}, restBuf: map[types.Object]bool{}, absDeps: map[string]string{}, capSens: map[types.Object]bool{}}
 	if fd.Type.TypeParams != nil || fd.Body == nil {
 		t.fail(fd, "generic functions and bodyless functions are not supported")
 	}
